@@ -117,6 +117,37 @@ def tagOf (g : BGeom) : String :=
   geomClass g ++ (if !Rfc.supported g then "-unsupported" else
     (if !Rfc.allFinite fin g then "-nonfinite" else if !Rfc.firstMemberNonEmpty g then "-firstempty" else ""))
 
+/-- split a token list at the separator `;` -/
+def splitSemi (t : Tok) : List Tok :=
+  let rec go : Tok → Tok → List Tok → List Tok
+    | [], cur, acc => (cur.reverse :: acc).reverse
+    | x :: r, cur, acc => if x = ";" then go r [] (cur.reverse :: acc) else go r (x :: cur) acc
+  go t [] []
+
+def pGeoms : Nat → Tok → Option (List BGeom)
+  | 0, _ => some []
+  | n+1, t => do let (g, t) ← Proto.pGeom 64 t; let gs ← pGeoms n t; pure (g :: gs)
+
+/-- one element of a batch: the immediate copy and the kept slice after the whole batch -/
+def judgeKept (g : BGeom) (res : Tok) : Option String :=
+  let encodable := Rfc.supported g && Rfc.allFinite fin g
+  match res with
+  | ["err", k] => if encodable then some s!"encoder-rejected-encodable-geometry-{k}" else none
+  | ["ok", c, k] =>
+    if !encodable then some "encoder-accepted-unsupported-or-non-finite"
+    else match hexToText ((c.drop 1).toString), hexToText ((k.drop 1).toString) with
+    | some ctxt, some ktxt =>
+      if ctxt != ktxt then
+        some s!"encode-result-aliased: returned={String.ofList ctxt} after-later-calls={String.ofList ktxt}"
+      else match parseJson ktxt with
+        | none => some "kept-result-is-not-JSON-text"
+        | some t =>
+          match Rfc.read t with
+          | none => some "kept-result-not-an-RFC7946-geometry-object"
+          | some g' => if Geom.beq g' g then none else some "kept-result-RFC-reading-differs"
+    | _, _ => some "encode-result-aliased: kept bytes are not UTF-8 any more"
+  | _ => some ("encoder-" ++ " ".intercalate res)
+
 def judgeLine (line : String) : String :=
   let (lhs, rhs) := splitArrow (tokens line)
   let rhsS := " ".intercalate rhs
@@ -196,6 +227,20 @@ def judgeLine (line : String) : String :=
         if rhs.head? == some "panic" then s!"SPEC {cls} decoder-{rhsS}"
         else if showGeomRes m == rhsS then s!"OK {cls}"
         else s!"DIFF {cls} model={showGeomRes m} impl={rhsS} doc={String.ofList txt}"
+  | "batch" :: n :: gt =>
+    match n.toNat? with
+    | none => "BAD batch"
+    | some k =>
+      match pGeoms k gt with
+      | none => "BAD parse"
+      | some gs =>
+        let rs := splitSemi rhs
+        if rs.length != gs.length then s!"SPEC batch harness-result-{rhsS}"
+        else
+          let bad := (gs.zip rs).zipIdx.filterMap fun ((g, r), i) => (judgeKept g r).map fun w => s!"call#{i}({geomClass g}):{w}"
+          match bad with
+          | [] => s!"OK batch"
+          | w :: _ => s!"SPEC batch {w}"
   | "fromt" :: th :: tt =>
     match unhexStr th, pTree tt with
     | some ty, some (t, _) =>
